@@ -193,6 +193,26 @@ fn float_ctor_checks(ctx: &Ctx) -> u64 {
         big1!("Xyb", Xyb::new(data.clone(), w, h));
         big1!("Hsl", Hsl::new(data.clone(), w, h));
     }
+    // Rgb::new keeps the labels it is given (only Unspecified is resolved: sRGB / BT.709)
+    for t in ALL_TC.iter().copied().chain([TC::Unspecified]) {
+        for p in ALL_CP.iter().copied().chain([CP::Unspecified]) {
+            n += 1;
+            match Rgb::new(vec![[0.25, 0.5, 0.75]; 6], 3, 2, t, p) {
+                Ok(r) => {
+                    let wt = if t == TC::Unspecified { TC::SRGB } else { t };
+                    let wp = if p == CP::Unspecified { CP::BT709 } else { p };
+                    if r.transfer() != wt || r.primaries() != wp {
+                        ev::violation(
+                            "C12|Rgb-not-verbatim|labels",
+                            format!("Rgb::new(.., {t:?}, {p:?}) exposes ({:?}, {:?})", r.transfer(), r.primaries()),
+                            J::obj().set("kind", "rgb-labels").set("transfer", format!("{t:?}")).set("primaries", format!("{p:?}")),
+                        );
+                    }
+                }
+                Err(e) => ev::violation("C12|Rgb-rejected-match", format!("{e:?}"), J::Null),
+            }
+        }
+    }
     ev::observe("float_ctor_cases", n);
     ev::observe("float_ctor_accepted", counts[0]);
     ev::observe("float_ctor_rejected", counts[1]);
@@ -224,7 +244,7 @@ pub fn c12(ctx: &Ctx) {
                 if !(near(s.cu.0, c.0) && near(s.cu.1, c.1)) && s.du == (s.ss.0 as usize, s.ss.1 as usize) {
                     return;
                 }
-                if !(s.pad == frames::PADS[0] || s.pad == frames::PADS[7]) || !(s.depth == 8 && s.u8s || s.depth == 10) {
+                if !(s.pad == frames::PADS[0] || s.pad == frames::PADS[7] || s.pad == frames::PADS[6] || s.pad == frames::PADS[2]) || !(s.depth == 8 && s.u8s || s.depth == 10) {
                     return;
                 }
             }
@@ -241,7 +261,7 @@ pub fn c12(ctx: &Ctx) {
                 }
                 // out-of-range sample sweep: u16 storage, every depth 8..15, on well-formed geometry
                 let sweep = if full { true } else { s.pad == frames::PADS[0] || s.pad == frames::PADS[7] || s.pad == frames::PADS[3] || s.pad == frames::PADS[2] || s.pad == frames::PADS[6] };
-                if !s.u8s && s.depth == 10 && w <= 12 && sweep {
+                if !s.u8s && s.depth == 10 && sweep {
                     let depths: &[u8] = if full { &[8, 9, 10, 11, 12, 13, 14, 15] } else { &[8, 9, 12, 15] };
                     for &depth in depths {
                         let s2 = FrameSpec { depth, ..s };
@@ -251,9 +271,19 @@ pub fn c12(ctx: &Ctx) {
                             let cfgp = &probe.planes[pl].cfg;
                             // all visible positions, plus padding positions: neighbours of the visible area, buffer ends, random
                             let mut pos: Vec<usize> = Vec::new();
-                            for y in 0..cfgp.height {
-                                for x in 0..cfgp.width {
-                                    pos.push((cfgp.yorigin + y) * cfgp.stride + cfgp.xorigin + x);
+                            if w <= 12 {
+                                for y in 0..cfgp.height {
+                                    for x in 0..cfgp.width {
+                                        pos.push((cfgp.yorigin + y) * cfgp.stride + cfgp.xorigin + x);
+                                    }
+                                }
+                            } else if cfgp.width > 0 && cfgp.height > 0 {
+                                // larger planes (stride may equal the width): corners of the visible area, the last rows, random samples
+                                let at = |x: usize, y: usize| (cfgp.yorigin + y) * cfgp.stride + cfgp.xorigin + x;
+                                let (lw, lh) = (cfgp.width - 1, cfgp.height - 1);
+                                pos.extend([at(0, 0), at(lw, 0), at(0, lh), at(lw, lh), at(lw / 2, lh), at(0, lh.saturating_sub(1)), at(lw, lh.saturating_sub(2))]);
+                                for _ in 0..6 {
+                                    pos.push(at(rng.below(cfgp.width as u64) as usize, rng.below(cfgp.height as u64) as usize));
                                 }
                             }
                             if len > 0 {
